@@ -92,7 +92,7 @@ REACH = ["honest_attestation", "wrong_subject_refused", "wrong_subject_with_own_
          "expired_registration_refused", "just_below_300s_attested", "replay_refused",
          "tampered_disclosure_refused", "third_party_attestation_refused", "valid_attestation_stored",
          "missing_request_unpermitted_refused", "missing_request_beyond_index_limited",
-         "long_chain_missing_tokens_served", "authority_restarted", "two_pseudonyms_one_manager"]
+         "long_chain_missing_tokens_served", "authority_restarted", "two_pseudonyms_one_manager", "subject_sent_self_signed_attestation_first", "subject_never_sends_a_valid_signature_for_one_token"]
 
 NODES = ("A", "S1", "S2", "T")
 IPS = {"A": "1.0.0.1", "S1": "1.0.0.2", "S2": "1.0.0.3", "T": "1.0.0.4"}
@@ -216,7 +216,7 @@ def m_forged_attest(r) -> list:  # noqa: ANN001
     ops = [_reg("A", s, h, name), _req(s, "A", h, name), _sleep(1.0)]
     for _ in range(r.randrange(1, 4)):
         ops.append({"op": "attest_forge", "node": r.choice(("T", "T", "S2", "S1")), "to": s,
-                    "mode": r.choice(("forward", "garbage", "third_key", "own", "own_random"))})
+                    "mode": r.choice(("forward", "garbage", "third_key", "own", "own_random", "self_md"))})
     return [*ops, _sleep(1.0)]
 
 
@@ -234,6 +234,12 @@ def m_missing_unpermitted(r) -> list:  # noqa: ANN001
 def m_long_chain(r) -> list:  # noqa: ANN001
     s, h, name = r.choice(("S1", "S2")), r.randrange(NH), r.choice(NAMES)
     return [_adv_many(s, r.choice((33, 36, 39, 45))), _reg("A", s, h, name), _req(s, "A", h, name), _sleep(3.0)]
+
+
+def m_long_chain_bad(r) -> list:  # noqa: ANN001
+    s, h, name = r.choice(("S1", "S2")), r.randrange(NH), r.choice(NAMES)
+    return [_adv_many(s, r.choice((33, 36, 39, 45))), _reg("A", s, h, name),
+            _req(s, "A", h, name, None, r.choice(("token_sig", "token_sig_persistent", "token_sig_persistent")), r.randrange(16)), _sleep(3.0)]
 
 
 def m_beyond_index(r) -> list:  # noqa: ANN001
@@ -263,9 +269,10 @@ MOTIFS = (("honest", m_honest, ("honest_attestation",)),
           ("forged_attest", m_forged_attest, ()),
           ("missing_unpermitted", m_missing_unpermitted, ()),
           ("long_chain", m_long_chain, ("honest_attestation", "long_chain_missing_tokens_served")),
+          ("long_chain_bad", m_long_chain_bad, ()),
           ("beyond_index", m_beyond_index, ()),
           ("restart", m_restart, ()))
-WEIGHTS = (3, 2, 6, 2, 3, 5, 4, 4, 2, 3, 3, 1, 2, 2)
+WEIGHTS = (3, 2, 6, 2, 3, 5, 4, 4, 2, 3, 3, 1, 2, 2, 2)
 
 FIXED = (
     ("just_below", [_reg("A", "S1", 0, "n0"), _sleep(299.0), _req("S1", "A", 0, "n0"), _sleep(1.0)],
@@ -310,6 +317,16 @@ FIXED = (
      ("honest_attestation",)),
     # S1 and S2 are two pseudonyms of ONE user (one IdentityManager, as the CommunicationManager sets them up): what the user
     # opened to A on pseudonym S1 says nothing about pseudonym S2
+    # a long chain: the disclosure carries only the newest tokens, the attester asks for the rest.  A token with a broken signature in
+    # the first message arrives before its parents.
+    *[(f"long_chain_bad_token_first_{ti}", [_adv_many("S1", 36), _reg("A", "S1", 0, "n0"),
+                                            _req("S1", "A", 0, "n0", None, "token_sig_persistent", ti), _sleep(3.0)], ()) for ti in range(14)],
+    ("self_attestation_first", [{"op": "adv", "node": "S1", "h": 0, "name": "n0"}, _reg("A", "S1", 0, "n0"),
+                                {"op": "attest_forge", "node": "S1", "to": "A", "mode": "self_md"}, _sleep(0.5),
+                                {"op": "disclose", "node": "S1", "to": "A", "h": 0}, _sleep(1.0),
+                                {"op": "replay", "node": "S1", "to": "A", "k": 0}, _sleep(1.0),
+                                {"op": "replay", "node": "S1", "to": "A", "k": 0}, _sleep(1.0)],
+     ("honest_attestation", "subject_sent_self_signed_attestation_first")),
     ("shared_cross_pseudonym", [_adv_many("S1", 12), _adv_many("S2", 7), _reg("A", "S1", 0, "n0"), _req("S1", "A", 0, "n0"),
                                 _sleep(2.0), {"op": "req_missing", "node": "A", "to": "S2", "known": 0}, _sleep(1.0),
                                 {"op": "req_missing", "node": "A", "to": "S1", "known": 3}, _sleep(1.0)],
@@ -336,7 +353,7 @@ def _random_op(r) -> dict:  # noqa: ANN001
         return {"op": "req_missing", "node": r.choice(NODES), "to": s, "known": r.choice((0, 1, 2, 8, 40))}
     if k == 7:
         return {"op": "attest_forge", "node": r.choice(("T", "S1", "S2")), "to": r.choice(NODES),
-                "mode": r.choice(("forward", "garbage", "third_key", "own", "own_random"))}
+                "mode": r.choice(("forward", "garbage", "third_key", "own", "own_random", "self_md"))}
     if k == 8:
         return {"op": "disclose", "node": s, "to": r.choice(("A", "T")), "h": r.randrange(NH), "atts": r.random() < 0.6}
     if k == 9:
@@ -866,6 +883,8 @@ def execute(case: dict) -> dict:  # noqa: C901, PLR0915
             check_tokens_out(node, pkt, rec)
         st["deferred"].clear()
 
+    poison: set = set()
+
     def tamper_fit(node, kind: str, ti: int):  # noqa: ANN001, ANN202
         orig = node.ov._fit_disclosure  # noqa: SLF001
         rng = world.stream("tamper")
@@ -876,6 +895,29 @@ def execute(case: dict) -> dict:  # noqa: C901, PLR0915
             if kind == "token_sig" and n:
                 i = (ti % n) * TOK + 64 + 5
                 toks = toks[:i] + bytes([toks[i] ^ 0x10]) + toks[i + 1:]
+            elif kind == "token_sig_persistent" and n:
+                # a DISHONEST subject: one token of its chain never carries a valid signature, in whatever message it travels
+                j = (ti % n) * TOK
+                poison.add(toks[j:j + 64])
+                c.probe("subject_never_sends_a_valid_signature_for_one_token")
+                if not getattr(node.ov, "_c17_poisoned", False):
+                    node.ov._c17_poisoned = True  # noqa: SLF001
+                    inner_send = node.ov.ez_send
+
+                    def poisoned_send(peer, *payloads, **kw):  # noqa: ANN001, ANN002, ANN003, ANN202
+                        for pl in payloads:
+                            tk = getattr(pl, "tokens", None)
+                            if isinstance(tk, (bytes, bytearray)) and tk:
+                                b = bytearray(tk)
+                                for q in range(0, len(b) - TOK + 1, TOK):
+                                    if bytes(b[q:q + 64]) in poison:
+                                        b[q + 64 + 5] ^= 0x10
+                                pl.tokens = bytes(b)
+                        return inner_send(peer, *payloads, **kw)
+                    node.ov.ez_send = poisoned_send
+                for q in range(0, len(toks) - TOK + 1, TOK):
+                    if toks[q:q + 64] in poison:
+                        toks = toks[:q + 69] + bytes([toks[q + 69] ^ 0x10]) + toks[q + 70:]
             elif kind == "extra_bad_token":
                 toks = toks + rng.randbytes(TOK)
             elif kind == "md_sig":
@@ -967,6 +1009,12 @@ def execute(case: dict) -> dict:  # noqa: C901, PLR0915
             target = m.chain_md[to][-1] if m.chain_md[to] else sha3(b"c17-nothing")
             if mode == "forward" and captured_att:
                 raw = captured_att[-1]
+            elif mode == "self_md":
+                # the sender attests its OWN newest metadata and hands that to the peer (which stores any attestation validly signed
+                # by its sender)
+                own_md = m.chain_md[node.name][-1] if m.chain_md[node.name] else sha3(b"c17-nothing")
+                raw = Attestation(own_md, private_key=node.my_peer.key).get_plaintext_signed()
+                c.probe("subject_sent_self_signed_attestation_first")
             elif mode == "own":
                 raw = Attestation(target, private_key=node.my_peer.key).get_plaintext_signed()
             elif mode == "own_random":
